@@ -656,6 +656,9 @@ class State:
         c = z3.simplify(c) if not isinstance(c, bool) else z3.BoolVal(c)
         if z3.is_true(c):
             return
+        cid = c.get_id()
+        if any(h.get_id() == cid for h in self.pc):
+            return  # literally the same fact again (e.g. a callee precondition already known)
         self.pc.append(c)
 
     def infeasible(self):
